@@ -103,6 +103,8 @@ def parseOp (t : String) : Option Op :=
   | ["pipe"] => some .pipe
   | ["nb", fd] => do pure (.nb (← fd.toNat?))
   | ["rlim"] => some .rlim
+  | ["fill", fd] => do pure (.fill (← fd.toNat?))
+  | ["sel", fd, d] => do pure (.sel (← fd.toNat?) (d == "w"))
   | _ => none
 
 /-- how an observation is printed; the operation decides between the few forms a number or flag takes -/
@@ -115,7 +117,7 @@ def showObs (op : Op) : Obs → String
   | .pair a b => s!"={a},{b}"
   | .bytes b => "=" ++ showBytes b
   | .flag b => match op with
-    | .nb _ => if b then "=1" else "=0"
+    | .nb _ | .sel _ _ => if b then "=1" else "=0"
     | _ => if b then "=e" else "=-"
   | .node n => showNode n
   | .fifo => "=fifo"
@@ -123,6 +125,7 @@ def showObs (op : Op) : Obs → String
   | .names ns => "=" ++ (if ns.isEmpty then "-" else ",".intercalate (sortStrings ns))
   | .path p => "=" ++ showPath p
   | .access rd wr => if rd && wr then "=rw" else if wr then "=w" else "=r"
+  | .full => "full"
 
 /-- distinct bound paths (newest binding wins), without the root and the standard files -/
 def treePaths (t : Tree) : List Path :=
